@@ -282,4 +282,12 @@ func init() {
 			{Name: "order", Pkg: "c02", Run: "^(TestC02Order|TestC02Stash)$", QuickChecks: 1500, ThoroughChecks: 20000, ThoroughShards: 12, CaseFile: true, CrashOracle: "no-crash"},
 		},
 	}
+
+	registry["C19"] = &Check{
+		Rule: "2-6 actors (some with providers), event types of value and pointer kind, a settled prefix of 0-10 and a script of 1-14 operations from {Subscribe (also repeated), Unsubscribe, UnsubscribeAll, Publish from an actor or from outside, kill a subscriber, restart a subscriber (failure answered by Restart)}, executed sequentially settled or racing (1 in 4). Sequential oracle: for every publication the receivers equal the reference model's subscriber set of that concrete type at that point, each exactly once, nobody else, no dead letter; racing oracle: never twice, never to an actor that was not subscribed at any time, exactly once to actors subscribed throughout. Always: per (publisher, subscriber) publication order, both event-stream tables at quiescence equal the model (white box), a final publication of every type reaches exactly the model's subscribers (restart keeps subscriptions). Non-trivial = a publication with >= 2 subscribers and >= 1 former subscriber (sequential) / >= 2 actors subscribed throughout (racing). Distinct = hash of the case.",
+		Assumptions: []string{"failures are answered by a one-for-one Restart of the system strategy so that 'restart keeps subscriptions' is exercised"},
+		Units: []Unit{
+			{Name: "es", Pkg: "c19", Run: "^TestC19EventStream$", QuickChecks: 8000, ThoroughChecks: 80000, ThoroughShards: 16, CaseFile: true, CrashOracle: "no-crash", Inject: actorOverlay},
+		},
+	}
 }
